@@ -19,7 +19,7 @@ from engines import recplay as R
 PROP = 'C04'
 
 IN_FAULTS = ['key_unbuildable', 'handler_raises', 'copy_fails', 'unserializable_value', 'discard_in_body',
-             'force_in_body', 'discard_before', 'force_before']
+             'force_in_body', 'discard_before', 'force_before', 'fallback_raises']
 OUT_FAULTS = ['handler_raises', 'discard_in_body', 'force_in_body', 'discard_before', 'force_before',
               'unserializable_value']
 
@@ -82,6 +82,10 @@ def apply_fault(spec, io_steps, pos, kind_raw, run):
         return kind
     if kind == 'handler_raises':
         (spec.inputs if st[0] == 'in' else spec.outputs)[st[1]].handler = True
+    if kind == 'fallback_raises':
+        ispec = spec.inputs[st[1]]
+        if ispec.fallback is None or ispec.fallback[0] != 'fn':
+            ispec.fallback = ('fn', ['old_' + ispec.alias])
     if kind == 'copy_fails':
         spec.op.params = dict(spec.op.params or {}, copy_data_on_intercepion=True)
     if kind == 'unserializable_value' and st[0] == 'out':
@@ -128,6 +132,10 @@ def _run_tape(tape):
     spec.op.params = sampling
     spec.op.params_style = 'kwargs' if (sampling and tape.draw(2)) else 'object'
     spec.op.extractor = extractor
+    if tape.draw(4) == 3:
+        # the service itself fails: the operation (also after a discard) must raise exactly that exception
+        spec.body.insert(tape.draw(len(spec.body) + 1), ['raise', tape.choice(R.D.EXC_CLASSES)])
+        run.probe('operation_raises')
     has_spawn = any(st[0] == 'spawn' for st in spec.body)
     if has_spawn and straggle:
         for st in spec.body:
